@@ -267,8 +267,13 @@ where
 	C: NodeClient + 'a,
 	K: Keychain + 'a,
 {
-	// Create a potential output for this transaction
-	let key_id = keys::next_available_key(wallet, keychain_mask).unwrap();
+	// Create a potential output for this transaction, derived under the
+	// destination account (which is not necessarily the active one)
+	let active_parent_key_id = wallet.parent_key_id();
+	wallet.set_parent_key_id(parent_key_id.clone());
+	let key_res = keys::next_available_key(wallet, keychain_mask);
+	wallet.set_parent_key_id(active_parent_key_id);
+	let key_id = key_res.unwrap();
 	let keychain = wallet.keychain(keychain_mask)?;
 	let key_id_inner = key_id.clone();
 	let amount = slate.amount;
@@ -364,8 +369,11 @@ where
 		&parent_key_id,
 	)?;
 
-	// build transaction skeleton with inputs and change
-	let (parts, change_amounts_derivations) = inputs_and_change(
+	// build transaction skeleton with inputs and change; change keys are
+	// derived under the source account (which is not necessarily the active one)
+	let active_parent_key_id = wallet.parent_key_id();
+	wallet.set_parent_key_id(parent_key_id.clone());
+	let res = inputs_and_change(
 		&coins,
 		wallet,
 		keychain_mask,
@@ -373,7 +381,9 @@ where
 		fee,
 		change_outputs,
 		include_inputs_in_sum,
-	)?;
+	);
+	wallet.set_parent_key_id(active_parent_key_id);
+	let (parts, change_amounts_derivations) = res?;
 
 	Ok((parts, coins, change_amounts_derivations, fee))
 }
